@@ -680,10 +680,16 @@ impl<'de, 'a, R: Reader<'de>> de::Deserializer<'de> for &'a mut Deserializer<R> 
         tri!(self.parser.check_invalid_utf8(false));
 
         let value = match peek {
-            b'"' => match tri!(self.parser.parse_string_raw(&mut self.scratch)) {
-                ParsedSlice::Borrowed { slice: b, buf: _ } => visitor.visit_borrowed_bytes(b),
-                ParsedSlice::Copied(b) => visitor.visit_bytes(b),
-            },
+            b'"' => {
+                // a byte string is not text: an unpaired surrogate escape stands for itself
+                self.parser.bytes_mode = true;
+                let parsed = self.parser.parse_string_raw(&mut self.scratch);
+                self.parser.bytes_mode = false;
+                match tri!(parsed) {
+                    ParsedSlice::Borrowed { slice: b, buf: _ } => visitor.visit_borrowed_bytes(b),
+                    ParsedSlice::Copied(b) => visitor.visit_bytes(b),
+                }
+            }
             b'[' => {
                 self.parser.read.backward(1);
                 self.deserialize_seq(visitor)
